@@ -773,6 +773,9 @@ def _state_unwrap_discharge(F, site, f, cfg, du, calls):
     return "D-FIRSTROUND: %s.%s is Some on every way out of the round loop (%d exits: the confirmed one compares with its Some payload, the others are dominated by `%s = Some(<this round's evaluation>)`)" % (adt.split("::")[-1], fld, n, fld)
 
 
+EXIT_SITES = {}     # id(F) -> [(block that leaves the loop without a confirmed fixed point, loop body)]
+
+
 def resolve_loop_exits(F):
     """S-CONVERGE: classify the exits of resolve_tx's evaluation loop.
     Returns list of (kind, line, detail) with kind in {"converged", "error", "unconverged"}"""
@@ -794,6 +797,7 @@ def resolve_loop_exits(F):
         if s["lhs"]["l"] == 0 and not s["lhs"]["p"] and rv["k"] == "agg" and rv.get("variant") == "Ok" and rv.get("adt", "").endswith("::Result"):
             ok_returns.add(bi)
     out = []
+    sites = EXIT_SITES[id(F)] = []
     for u in sorted(body):
         for v in cfg.succ[u]:
             if v in body or f["blocks"][v]["cleanup"]:
@@ -826,9 +830,12 @@ def resolve_loop_exits(F):
                         out.append(("converged", pline, eq2))
                     else:
                         how2 = _exit_condition(f, du, pu)
+                        sites.append((pu, body))
                         out.append(("unconverged: " + how2, pline, "leaves the loop towards `Ok(..)` (%s) without eval_pass having reported convergence" % how2))
                 continue
             how = _exit_condition(f, du, u)
+            if not conv:
+                sites.append((u, body))
             out.append(("converged" if conv else "unconverged: " + how, line,
                         "leaves the loop on eval_pass() == None" if conv else "leaves the loop towards `Ok(..)` (%s) without eval_pass having reported convergence" % how))
     return f, out
